@@ -15,7 +15,7 @@ func TestReplay(t *testing.T) { vh.Replay(t) }
 
 var profile = life.Profile{
 	MaxOps: 20, WSend: 8, WPanic: 3, WGate: 3, WRelease: 3, WPoison: 3, WStop: 3, WRespawn: 2, WBurst: 1,
-	MaxChain: 1, MaxChildren: 0, Lifecycle: false, SpawnSends: false, MaxBudget: 3, BigBurst: true,
+	MaxChain: 1, MaxChildren: 0, Lifecycle: true, SpawnSends: false, MaxBudget: 3, BigBurst: true,
 }
 
 // non-trivial: >= 2 pills, or a pill with messages on each side in one queued window, or a
